@@ -4561,7 +4561,8 @@ void SymbolDatabase::printXml(std::ostream &out) const
                     outs += "\"/>\n";
                     // every variable named in a varlist is emitted in <variables> (members of an
                     // anonymous union are copied into the enclosing scope and share a varId)
-                    variables.insert(&*var);
+                    if (variables.insert(&*var).second)
+                        variablesInOrder.push_back(&*var);
                 }
                 outs += "      </varlist>\n";
             }
